@@ -31,6 +31,13 @@ def producers_of_adapter(ctx: Check, tree: Tree) -> list[str]:
     for node in walk_function(fn.node):
         if isinstance(node, ast.Call) and isinstance(node.func, ast.Attribute) and node.func.attr == "update" and node.args:
             inner = node.args[0]
+            if isinstance(inner, ast.Name):
+                # `x = producer(...); out.update(x)`: follow the single reaching definition
+                from ..dataflow import RD
+
+                defs = [d for d in RD(fn.node).uses(inner) if d.value is not None]
+                if len(defs) == 1 and isinstance(defs[0].value, ast.Call):
+                    inner = defs[0].value
             if isinstance(inner, ast.Call):
                 callee = tree.callee(inner, fn)
                 if callee and callee in tree.funcs:
